@@ -124,6 +124,8 @@ PLACES = ["main_init", "main_attr", "main_attr_list", "sub_init", "sub_attr", "s
 HIST_LOCS = ["a.bin", "sub/b.bin", "sub/deeper/c.bin", "link_in", "dlink_in/b.bin"]
 HIST_FIRST = ["numpy", "tobytes", "tofile_bytesio", "asarray", "none"]
 HIST_MUTATIONS = ["base_alt", "base_alt2", "base_setter_graph", "hardlink_added", "swapped_for_symlink_out", "none", "release"]
+# transient errors of stat(2) while the containment check runs (the check must fail closed)
+STAT_ERRNOS = ["EACCES", "EIO", "ENOMEM", "EOVERFLOW"]
 HIST_SECOND = ["numpy", "asarray", "tobytes", "tofile_bytesio", "tofile_real", "tofile_nocfr", "load_to_model", "convert_from_external", "resave"]
 
 
@@ -225,7 +227,10 @@ def gen_case(run_seed: int, tier: str, index: int = 0) -> dict:
         triples = enum_chunk(index)
         return {"property": PROPERTY, "run_seed": run_seed, "triples": triples, "enumerated_chunk": index}
     n = 160
+    rf = st.rng("faults")
     for _ in range(n):
+        # transient failure of the first os.stat made during the evaluated access (separate stream: old cases keep their triples)
+        sf = rf.choice(STAT_ERRNOS) if rf.random() < 0.15 else None
         mode = r.random()
         if mode < 0.35:
             loc = _spell(r, r.choice(INSIDE_FILES))
@@ -237,13 +242,13 @@ def gen_case(run_seed: int, tier: str, index: int = 0) -> dict:
             loc = loc + r.choice(["/", "/.", "//"])
         off, ln = r.choice([(0, 16), (0, 16), (8, 16), (48, 16), (0, 64), (60, 16), (0, 1)])
         if r.random() < 0.2:
-            triples.append({"level": "history", "loc": r.choice(HIST_LOCS), "first": r.choice(HIST_FIRST), "mutation": r.choice(HIST_MUTATIONS), "entry": r.choice(HIST_SECOND), "off": off if off + ln <= 64 else 0, "len": ln if off + ln <= 64 else 16, "base": 0})
+            triples.append({"level": "history", "loc": r.choice(HIST_LOCS), "first": r.choice(HIST_FIRST), "mutation": r.choice(HIST_MUTATIONS), "entry": r.choice(HIST_SECOND), "off": off if off + ln <= 64 else 0, "len": ln if off + ln <= 64 else 16, "base": 0, "stat_fault": sf})
             continue
         if r.random() < 0.25:
             mp = r.randrange(len(MODEL_PATHS))
-            triples.append({"level": "load", "model_path": mp, "loc": loc, "entry": r.choice(LOAD_ENTRIES), "off": off, "len": ln, "place": r.choice(PLACES) if r.random() < 0.6 else "main_init"})
+            triples.append({"level": "load", "model_path": mp, "loc": loc, "entry": r.choice(LOAD_ENTRIES), "off": off, "len": ln, "place": r.choice(PLACES) if r.random() < 0.6 else "main_init", "stat_fault": sf})
         else:
-            triples.append({"level": "tensor", "base": r.randrange(len(BASES)), "loc": loc, "entry": r.choice(TENSOR_ENTRIES), "off": off, "len": ln})
+            triples.append({"level": "tensor", "base": r.randrange(len(BASES)), "loc": loc, "entry": r.choice(TENSOR_ENTRIES), "off": off, "len": ln, "stat_fault": sf})
     return {"property": PROPERTY, "run_seed": run_seed, "triples": triples}
 
 
@@ -447,6 +452,20 @@ def _forbidden_now(root: str, base: str) -> dict:
     return out
 
 
+def _arm_stat_fault(seam, tr: dict) -> None:
+    seam.read_kind_counts.clear()
+    seam.fired.clear()
+    seam.read_faults = [{"kind": "stat", "nth": 0, "errno": tr["stat_fault"]}] if tr.get("stat_fault") else []
+
+
+def _disarm_stat_fault(seam, inc) -> None:
+    if seam.fired:
+        inc("fault_stat_fired")
+        inc("fault_stat_" + seam.fired[0]["errno"])
+    seam.read_faults = []
+    seam.fired.clear()
+
+
 def run_history(tr: dict, root: str, seam, inc) -> tuple | None:
     """read -> change the world / the base directory -> read again, on ONE tensor object."""
     os.chdir(root)
@@ -487,10 +506,14 @@ def run_history(tr: dict, root: str, seam, inc) -> tuple | None:
         seam.effects.clear()
         got = None
         raised = None
+        _arm_stat_fault(seam, tr)
         try:
             got = _tensor_entry(tr["entry"], t, root, seam)
         except Exception as e:  # noqa: BLE001
             raised = e
+        finally:
+            stat_fired = bool(seam.fired)
+            _disarm_stat_fault(seam, inc)
         base_now = os.fspath(t.base_dir)
         realbase_now = os.path.realpath(base_now)
         allowed, den_rel, exists, _inside = denotes(root, root, base_now, loc, realbase_now)
@@ -499,7 +522,7 @@ def run_history(tr: dict, root: str, seam, inc) -> tuple | None:
         bad = [(k, forb[ino]) for (k, ino) in byte_reads if ino in forb]
         desc = f"{tr['first']} -> {mut} -> {tr['entry']} on location {loc!r}"
         if bad:
-            return ("read-forbidden-file", f"history {desc}: the second access read bytes of {bad[0][1]} via {bad[0][0]} ({'returned' if raised is None else 'raised ' + type(raised).__name__})", f"read-forbidden-file|history|{mut}")
+            return ("read-forbidden-file", f"history {desc}: the second access read bytes of {bad[0][1]} via {bad[0][0]} ({'returned' if raised is None else 'raised ' + type(raised).__name__})", f"read-forbidden-file|history|{mut}" + ("|stat-fault" if stat_fired else ""))
         if raised is None:
             inc("history_second_returned")
             rereads = tr["entry"] in ("tofile_bytesio", "tofile_real", "tofile_nocfr", "resave")
@@ -589,6 +612,7 @@ def _run(case: dict, root: str, res: dict) -> None:
             size0 = entry.startswith("size0")
             out_file = os.path.join(root, "out", "dst.bin")
             loaded_base_ok = True
+            _arm_stat_fault(seam, tr)
             try:
                 if tr["level"] == "tensor":
                     t = _mk_tensor(loc, base, off, ln, size0=size0)
@@ -651,6 +675,8 @@ def _run(case: dict, root: str, res: dict) -> None:
                 raised = e
             finally:
                 seam.hide_copy_file_range = False
+                stat_fired = bool(seam.fired)
+                _disarm_stat_fault(seam, inc)
             # ---------------- oracle
             if tr["level"] == "load":
                 ref_base = os.path.join(root, "model")
@@ -665,7 +691,9 @@ def _run(case: dict, root: str, res: dict) -> None:
                 v = ("base-dir-after-load", f"onnx_ir.load({MODEL_PATHS[tr['model_path']][1]!r}) with cwd={cwd_rel}: external tensor base_dir={bd!r} of the tensor at {tr.get('place', 'main_init')} does not resolve to the model's directory")
                 key = f"base-dir-after-load|{MODEL_PATHS[tr['model_path']][1]}|{tr.get('place', 'main_init')}"
             elif bad:
-                v = ("read-forbidden-file", f"{entry} on location {tr['loc']!r} (base {base!r}, cwd {cwd_rel}) read bytes of {bad[0][1]} via {bad[0][0]} ({'returned' if raised is None else 'raised ' + type(raised).__name__})")
+                v = ("read-forbidden-file", f"{entry} on location {tr['loc']!r} (base {base!r}, cwd {cwd_rel}) read bytes of {bad[0][1]} via {bad[0][0]} ({'returned' if raised is None else 'raised ' + type(raised).__name__}){' after a transient ' + tr['stat_fault'] + ' from os.stat' if stat_fired else ''}")
+                if stat_fired:
+                    key = "read-forbidden-file|stat-fault"
             elif raised is None:
                 if size0:
                     # nothing can be read for an empty tensor; only a location that leaves the base
